@@ -47,6 +47,8 @@ type FaultPlan struct {
 	N          int
 	Fired      []DepCall
 	Injectable func(kind string) bool
+	// Match, when set, decides per call (kind and storage key) instead of Injectable.
+	Match func(kind string, key []byte) bool
 }
 
 // Payability answers.
@@ -85,6 +87,7 @@ type Config struct {
 	EnableNameChg   bool
 	DNS             [][]byte
 	ConfirmEpoch    *uint32 // epoch confirmed right after construction (nil = none)
+	MetaSelf        bool    // shard 0's coordinator reports SelfId() == MetachainShardId (a metachain node)
 	// CodecWrap lets a check interpose on the marshaller (fault injection uses the choke point instead).
 }
 
@@ -252,7 +255,7 @@ func (w *World) dep(kind string, addr, key []byte) error {
 	if w.Logging {
 		w.Log = append(w.Log, DepCall{Kind: kind, Addr: string(addr), Key: string(key)})
 	}
-	if fp := w.Fault; fp != nil && (fp.Injectable == nil || fp.Injectable(kind)) {
+	if fp := w.Fault; fp != nil && ((fp.Match != nil && fp.Match(kind, key)) || (fp.Match == nil && (fp.Injectable == nil || fp.Injectable(kind)))) {
 		fp.N++
 		if fp.N == fp.FailAt || fp.N == fp.FailAt2 {
 			fp.Fired = append(fp.Fired, DepCall{Kind: kind, Addr: string(addr), Key: string(key)})
@@ -302,7 +305,12 @@ func ComputeShard(n uint32, address []byte) uint32 {
 
 func (c *Coord) NumberOfShards() uint32          { return c.w.NumShards }
 func (c *Coord) ComputeId(address []byte) uint32 { return ComputeShard(c.w.NumShards, address) }
-func (c *Coord) SelfId() uint32                  { return c.self }
+func (c *Coord) SelfId() uint32 {
+	if c.w.Cfg.MetaSelf && c.self == 0 {
+		return vmcommon.MetachainShardId
+	}
+	return c.self
+}
 func (c *Coord) SameShard(a, b []byte) bool {
 	return ComputeShard(c.w.NumShards, a) == ComputeShard(c.w.NumShards, b)
 }
